@@ -5,6 +5,7 @@ import KyupyVerif.Proofs.TransformSem6
 import KyupyVerif.Proofs.Substitute4
 import KyupyVerif.Proofs.SubstituteRes
 import KyupyVerif.Proofs.SubstSem9
+import KyupyVerif.Proofs.SubstResolve
 /-! # C10 — copy, pickle, fork elimination and cell substitution preserve function
 
 Objects of the theorems: the hand-written models `KV.Transform` of `Circuit.copy`, `__getstate__/__setstate__`,
@@ -440,6 +441,42 @@ theorem resolve_ports (lib : Lib) (h h' : NNet) (hw : h.wf = true)
   have r := (resolve_fold lib h.keys h h' he ⟨w.names, w.io⟩ hk).1
   exact ⟨r, by simpa [NNet.ioNames] using congrArg List.length r⟩
 
+/-- **`resolve_tlib_cells` preserves the function** (model `resolveCells`; every substitution along the loop a regular use:
+    `resolveOKB`, decidable, evaluated by running the model).  With `cell x` = "`x` is a node of the original circuit whose
+    kind is in the library": the result is well-formed, keeps ports, all other nodes and all node keys of the original;
+    **(1)** every consistent labelling `v'` of the result is, on the original lines, consistent for the original circuit
+    outside the library cells, and every library cell `c` has the relational meaning of its implementation under `v'`
+    (`ImplMatches`, see `substitute_sem`); **(2)** conversely every labelling of the original circuit that is consistent
+    outside the library cells and gives every library cell the relational meaning of its implementation extends to a
+    consistent labelling of the result (same values on the original lines, same assignment on the other nodes). -/
+theorem resolve_sem {α : Type _} (lib : Lib) (h h' : NNet) (hw : h.wf = true) (hok : resolveOKB lib h.keys h = true)
+    (he : resolveCells lib h = some h') (z : α) (neg : α → α) (prim : String → α → α → α → α → α) :
+    h'.wf = true ∧ h'.net.io = h.net.io ∧ h.net.nodes.size ≤ h'.net.nodes.size ∧ h.net.lines.size ≤ h'.net.lines.size ∧
+    (∀ d, d < h.net.nodes.size → (lib.find (h.net.node d).kind).isSome = false → h'.net.node d = h.net.node d) ∧
+    (∀ d, d < h.net.nodes.size → h'.key d = h.key d) ∧
+    (∀ an' v' : Nat → α, ConsOff h' (fun _ => False) z neg prim an' v' →
+      ConsOff h (fun x => x < h.net.nodes.size ∧ (lib.find (h.net.node x).kind).isSome = true) z neg prim an' v' ∧
+      ∀ c, c < h.net.nodes.size → (lib.find (h.net.node c).kind).isSome = true →
+        ∃ impl sh anm vm, lib.find (h.net.node c).kind = some impl ∧ implShape impl = some sh ∧
+          ImplMatches h c impl sh z neg prim anm vm v') ∧
+    (∀ an v : Nat → α,
+      ConsOff h (fun x => x < h.net.nodes.size ∧ (lib.find (h.net.node x).kind).isSome = true) z neg prim an v →
+      (∀ c, c < h.net.nodes.size → (lib.find (h.net.node c).kind).isSome = true →
+        ∃ impl sh anm vm, lib.find (h.net.node c).kind = some impl ∧ implShape impl = some sh ∧
+          ImplMatches h c impl sh z neg prim anm vm v) →
+      ∃ an' v', ConsOff h' (fun _ => False) z neg prim an' v' ∧ (∀ l, l < h.net.lines.size → v' l = v l) ∧
+        (∀ d, d < h.net.nodes.size → (lib.find (h.net.node d).kind).isSome = false → an' d = an d)) := by
+  have r := resolve_sem_main lib h h' (WF.of_wf hw) z neg prim hok he
+  refine ⟨wf_of_WF r.wf, r.io, r.nsize, r.lsize, fun d hd hn => r.node d hd (fun hc => by rw [hn] at hc; exact absurd hc.2 (by simp)),
+    r.key, ?_, ?_⟩
+  · intro an' v' hc
+    obtain ⟨g1, g2⟩ := r.fw (fun _ => False) (fun _ hs => absurd hs id) an' v' hc
+    exact ⟨consOff_congr (fun x => by simp) g1, fun c hc1 hc2 => g2 c ⟨hc1, hc2⟩⟩
+  · intro an v hc hcells
+    obtain ⟨an', v', c1, e1, e2⟩ := r.bw (fun _ => False) (fun _ hs => absurd hs id) an v
+      (consOff_congr (fun x => by simp) hc) (fun c hc' => hcells c hc'.1 hc'.2)
+    exact ⟨an', v', c1, e1, fun d hd hn => e2 d hd (fun hc' => by rw [hn] at hc'; exact absurd hc'.2 (by simp))⟩
+
 /-! ## non-vacuity -/
 /-- a well-formed dump with an unconnected pin, a two-output flip-flop, fan-out and both node classes sharing a name -/
 def exWf : NNet where
@@ -585,6 +622,13 @@ example : exHostU.wf = true ∧ exHostU.net.io.contains 2 = false ∧ regularB e
 example : exFill.wf = true ∧
     (substitute exFill 1 { net := { nodes := #[⟨"__fork__", [], []⟩], lines := #[], io := [0] }, names := #["A"] }).map
       (fun r => (r.kindNames, r.net.lines.size)) = some ([("input", "a"), ("DFF", "ff")], 0) := by decide +kernel
+
+/-- hypotheses of `resolve_sem`: every substitution of the example is regular use; the result is consistent under the
+    evaluator's labelling (direction (1) is not vacuous) -/
+example : exHost.wf = true ∧ resolveOKB [("AOCELL", exImpl)] exHost.keys exHost = true ∧
+    (resolveCells [("AOCELL", exImpl)] exHost).map (fun r => (r.wf,
+      consistentB r.net false (!·) prim2 (fun j => j == 1 || j == 4) (evalAll r.net false (!·) prim2 (fun j => j == 1 || j == 4)))) =
+      some (true, true) := by decide +kernel
 
 /-- hypotheses of `resolve_ports`: the host of the example with the library `AOCELL ↦ exImpl` -/
 example : exHost.wf = true ∧ (exHost.net.io.all fun i => (Lib.find [("AOCELL", exImpl)] (exHost.net.node i).kind).isNone) = true ∧
